@@ -165,3 +165,44 @@ Proof. intros H. change (Zlength s) with (fsize (FRaw s)). rewrite (slice_field 
 
 Lemma slice_pad_exact bs off len : Zlength (slice bs off len) = len -> slice_pad bs off len = slice bs off len.
 Proof. intros H. unfold slice_pad. rewrite H, Z.sub_diag. unfold zeros. cbn [Z.to_nat repeat]. apply app_nil_r. Qed.
+
+(* ---- writes into a buffer laid out as a field list ---- *)
+Lemma put_bytes_here old r new : Zlength old = Zlength new -> put_bytes (old ++ r) 0 new = new ++ r.
+Proof. intros H. unfold put_bytes. change (Z.to_nat 0) with O. cbn [firstn app].
+  rewrite Z.add_0_l, <- H, to_nat_Zlength. rewrite skipn_app, skipn_all, Nat.sub_diag. reflexivity. Qed.
+
+Lemma to_nat_len_add {A} (a : list A) x : 0 <= x -> Z.to_nat (Zlength a + x) = (length a + Z.to_nat x)%nat.
+Proof. intros. rewrite Z2Nat.inj_add by (try apply Zlength_nonneg; lia). rewrite to_nat_Zlength. reflexivity. Qed.
+
+Lemma put_bytes_skip a r off new : 0 <= off -> put_bytes (a ++ r) (Zlength a + off) new = a ++ put_bytes r off new.
+Proof. intros H. unfold put_bytes. pose proof (Zlength_nonneg new) as Hn.
+  rewrite <- Z.add_assoc. rewrite (to_nat_len_add a off) by lia. rewrite (to_nat_len_add a (off + Zlength new)) by lia.
+  rewrite firstn_app. rewrite firstn_all2 by (apply Nat.le_add_r).
+  replace (length a + Z.to_nat off - length a)%nat with (Z.to_nat off) by (rewrite Nat.add_comm; symmetry; apply Nat.add_sub).
+  rewrite <- app_assoc. f_equal. f_equal. f_equal.
+  rewrite skipn_app. rewrite skipn_all2 by (apply Nat.le_add_r). cbn [app]. f_equal.
+  rewrite Nat.add_comm. apply Nat.add_sub. Qed.
+
+Lemma put_field fs k g f :
+  nth_error fs k = Some g -> fsize g = fsize f ->
+  put_bytes (fencs fs) (foff fs k) (fenc f) = fencs (upd k f fs).
+Proof. revert k. induction fs; intros [|k] H E; cbn [nth_error] in H; try discriminate.
+  - inversion H; subst. cbn [fencs foff upd]. apply put_bytes_here. rewrite !Zlength_fenc. exact E.
+  - cbn [fencs foff upd]. rewrite <- Zlength_fenc. rewrite put_bytes_skip by apply foff_nonneg.
+    f_equal. apply IHfs; assumption. Qed.
+
+Lemma nth_error_upd_same {A} k (x : A) l : (k < length l)%nat -> nth_error (upd k x l) k = Some x.
+Proof. revert k. induction l; intros [|k] H; cbn [length] in H; try lia; cbn [upd nth_error].
+  - reflexivity. - apply IHl. lia. Qed.
+
+Lemma fencs_app a b : fencs (a ++ b) = fencs a ++ fencs b.
+Proof. induction a; cbn [app fencs]. - reflexivity. - rewrite IHa. apply app_assoc. Qed.
+
+Lemma slice_prefix a b : slice (fencs (a ++ b)) 0 (fsizes a) = fencs a.
+Proof. rewrite fencs_app. rewrite <- Zlength_fencs. apply slice_here. Qed.
+
+Lemma zeros_app a b : 0 <= a -> 0 <= b -> zeros (a + b) = zeros a ++ zeros b.
+Proof. intros. unfold zeros. rewrite Z2Nat.inj_add by lia. apply repeat_app. Qed.
+
+Lemma get_lstr_len bs off : Zlength (slice bs off 0) = 0.
+Proof. unfold slice. change (Z.to_nat 0) with O. reflexivity. Qed.
